@@ -260,4 +260,131 @@ theorem declareClass_eq_buildCls (s s' : Store) (name : String) (sup c : Nat) (s
             rw [hs5o sup (by omega), hs4o sup hne, hs3o sup hne]
             exact hs2sup
 
+/-! ### the frame of a declaration: every class that existed before is left as it was
+
+(what lets one `super` site be reasoned about across several evaluations of the class declaration it sits
+in — `C03.C03_super_site_any_parents` — : a later declaration does not touch an earlier class) -/
+
+/-- `op_inherit` of a just-created class writes at the new address and above only -/
+theorem opInherit_fresh_frame (s s1 : Store) (name : String) (sup : Nat) (supc : Cls) (hsup : s.get? sup = some supc)
+    (h1 : Store.opInherit { classes := s.classes ++ [Cls.bare name] } s.classes.length sup = some s1)
+    (j : Nat) (hj : j < s.classes.length) : s1.get? j = s.get? j := by
+  have hsuplt := Store.get?_lt s sup supc hsup
+  have hget_c : Store.get? { classes := s.classes ++ [Cls.bare name] } s.classes.length = some (Cls.bare name) := by
+    simp [Store.get?]
+  have hget_sup : Store.get? { classes := s.classes ++ [Cls.bare name] } sup = some supc := by
+    simp only [Store.get?] at hsup ⊢
+    rw [List.getElem?_append_left hsuplt]; exact hsup
+  have hget_j : Store.get? { classes := s.classes ++ [Cls.bare name] } j = s.get? j := by
+    simp only [Store.get?]
+    rw [List.getElem?_append_left hj]
+  have hne : sup ≠ s.classes.length := Nat.ne_of_lt hsuplt
+  have hnej : j ≠ s.classes.length := Nat.ne_of_lt hj
+  simp only [Store.opInherit, Store.inherit, hget_c, hget_sup] at h1
+  generalize hmid : Store.set { classes := s.classes ++ [Cls.bare name] } s.classes.length
+    ((Cls.bare name).inheritFrom sup supc) = mid at h1
+  have hmid_c : mid.get? s.classes.length = some ((Cls.bare name).inheritFrom sup supc) := by
+    rw [← hmid]; exact Store.get?_set_eq _ _ _ (by simp)
+  have hmid_sup : mid.get? sup = some supc := by
+    rw [← hmid, Store.get?_set_ne _ _ _ _ hne]; exact hget_sup
+  have hmid_j : mid.get? j = s.get? j := by
+    rw [← hmid, Store.get?_set_ne _ _ _ _ hnej]; exact hget_j
+  have hmid_len : mid.classes.length = s.classes.length + 1 := by
+    rw [← hmid]; simp [Store.set]
+  generalize hcc : (Cls.bare name).inheritFrom sup supc = cc at *
+  have hsc : cc.superClass = some sup := by rw [← hcc]; rfl
+  have hmc : cc.metaClass = none := by rw [← hcc]; rfl
+  unfold Store.metaFromSuper at h1
+  rw [hmid_c] at h1
+  simp only at h1
+  rw [hsc] at h1
+  simp only at h1
+  rw [hmid_sup] at h1
+  simp only at h1
+  repeat' split at h1
+  all_goals (first | (cases h1; done) | skip)
+  all_goals
+    rw [hmc] at *
+  all_goals (first | (cases h1; done) | skip)
+  all_goals
+    simp only [Option.some.injEq] at h1
+    subst h1
+    rw [Store.get?_set_ne _ _ _ _ hnej]
+    simp only [Store.get?, Store.alloc]
+    rw [List.getElem?_append_left (by rw [hmid_len]; omega)]
+    exact hmid_j
+
+/-- **declareClass_frame.**  Running the emitted body of a class declaration leaves every class object
+that existed before exactly as it was (fields, methods, initialiser, links): the VM writes to the new
+class and its new metaclass only. -/
+theorem declareClass_frame (s s' : Store) (name : String) (sup c : Nat) (supc : Cls) (b : ClassBody)
+    (hsup : s.get? sup = some supc) (h : s.declareClass name sup b = some (s', c))
+    (j : Nat) (hj : j < s.classes.length) : s'.get? j = s.get? j := by
+  unfold Store.declareClass at h
+  have hc0 : (s.opClass name).2 = s.classes.length := rfl
+  have hs0 : (s.opClass name).1 = { classes := s.classes ++ [Cls.bare name] } := rfl
+  rw [hc0, hs0] at h
+  have hnej : j ≠ s.classes.length := Nat.ne_of_lt hj
+  cases h1 : Store.opInherit { classes := s.classes ++ [Cls.bare name] } s.classes.length sup with
+  | none => simp [h1] at h
+  | some s1 =>
+    simp only [h1] at h
+    obtain ⟨hs1c, _⟩ := opInherit_fresh s s1 name sup supc hsup h1
+    have hs1j := opInherit_fresh_frame s s1 name sup supc hsup h1 j hj
+    generalize hc1 : ({ (Cls.bare name).inheritFrom sup supc with metaClass := some (s.classes.length + 1) } : Cls) = c1 at hs1c
+    cases h2 : (match b.init with | some i => s1.opMethod s.classes.length "init" i | none => some s1) with
+    | none => simp [h2] at h
+    | some s2 =>
+      simp only [h2] at h
+      have hs2 : s2.get? s.classes.length = some (match b.init with | some i => c1.addMethod "init" i | none => c1) ∧
+                 s2.get? j = s.get? j := by
+        cases hb : b.init with
+        | none => simp only [hb] at h2; cases h2; exact ⟨hs1c, hs1j⟩
+        | some i =>
+          simp only [hb] at h2
+          obtain ⟨a, bb, _⟩ := Store.opMethod_spec s1 s2 _ "init" i c1 hs1c h2
+          exact ⟨a, by rw [bb j hnej]; exact hs1j⟩
+      obtain ⟨hs2c, hs2j⟩ := hs2
+      cases h3 : (compileInitFields b.initFields).foldlM (fun st f => st.opField s.classes.length f) s2 with
+      | none => simp [h3] at h
+      | some s3 =>
+        simp only [h3] at h
+        obtain ⟨hs3c, hs3o⟩ := Store.foldlM_opField_spec _ s2 s3 _ _ hs2c h3
+        cases h4 : b.methods.foldlM (fun st p => st.opMethod s.classes.length p.1 p.2) s3 with
+        | none => simp [h4] at h
+        | some s4 =>
+          simp only [h4] at h
+          obtain ⟨hs4c, hs4o⟩ := Store.foldlM_opMethod_spec _ s3 s4 _ _ hs3c h4
+          cases h5 : b.statics.foldlM (fun st p => st.opStaticMethod s.classes.length p.1 p.2) s4 with
+          | none => simp [h5] at h
+          | some s5 =>
+            simp only [h5, Option.some.injEq, Prod.mk.injEq] at h
+            obtain ⟨rfl, rfl⟩ := h
+            -- the metaclass link survives `Field*` and `Method*`
+            have hmeta : ∀ (ms : List (String × Nat)) (fs : List String) (x : Cls),
+                (ms.foldl (fun c p => c.addMethod p.1 p.2) (fs.foldl Cls.addField x)).metaClass = x.metaClass := by
+              intro ms fs x
+              have e1 : ∀ (ms : List (String × Nat)) (y : Cls), (ms.foldl (fun c p => c.addMethod p.1 p.2) y).metaClass = y.metaClass := by
+                intro ms
+                induction ms with
+                | nil => intro y; rfl
+                | cons p ms ih => intro y; simp only [List.foldl_cons]; rw [ih]; rfl
+              have e2 : ∀ (fs : List String) (y : Cls), (fs.foldl Cls.addField y).metaClass = y.metaClass := by
+                intro fs
+                induction fs with
+                | nil => intro y; rfl
+                | cons f fs ih =>
+                  intro y; simp only [List.foldl_cons]; rw [ih]
+                  unfold Cls.addField; split <;> rfl
+              rw [e1, e2]
+            have hm : (b.methods.foldl (fun c p => c.addMethod p.1 p.2)
+                ((compileInitFields b.initFields).foldl Cls.addField
+                  (match b.init with | some i => c1.addMethod "init" i | none => c1))).metaClass = some (s.classes.length + 1) := by
+              rw [hmeta]
+              subst hc1
+              cases b.init <;> rfl
+            obtain ⟨_, hs5o⟩ := Store.foldlM_opStatic_spec _ s4 s5 _ (s.classes.length + 1) _ hs4c hm (by omega) h5
+            rw [hs5o j (by omega), hs4o j hnej, hs3o j hnej]
+            exact hs2j
+
 end LaytheVerif.Classes
